@@ -17,6 +17,8 @@ Precipitation states (binary, ternary, two-phase; isothermal runs so that the bi
 Multicomponent backends (Al-Mg-Si with five stoichiometric precipitates, Ni-Al-Cr with an ordered precipitate):
   c12.methods_value     Al-Mg-Si: tangent / approximate / sampling agree to the 1 J/mol offset (+- 1 J/mol)
   c12.methods_sign      a method has the sign that at least two of the other three report with more than 300 J/mol
+  long histories        one approximate / curvature object answers hundreds of points x all precipitates; every answer beyond
+                        300 J/mol (Al-Mg-Si) / 600 J/mol (Ni-Al-Cr) of the sampling reference must have its sign
 Not asserted: values of the curvature method; values for the non-stoichiometric ordered precipitate.
 """
 import numpy as np
@@ -27,7 +29,9 @@ PROPERTY = 'C12'
 LEVEL = 'exploration'
 RULE = ('temperature x Gibbs-Thomson-energy grids and composition grids on Al-Zr for the binary relations (a case = one temperature; non-trivial = '
         '>= 3 stable g values); isothermal precipitation trajectories (binary/ternary/two-phase) for the growth-sign clause (non-trivial = states '
-        'with boundaries on both sides of the critical radius observed); distinct by case description hash')
+        'with boundaries on both sides of the critical radius observed); temperature arrays in five orders for the array form; random composition / '
+        'temperature points of Al-Mg-Si and Ni-Al-Cr for the agreement of the four methods (per-point new tangent object) and long query '
+        'histories of one object (non-trivial = enough points away from the solvus); distinct by case description hash')
 REQUIRED_MONITORS = ['c12.df_at_interface', 'c12.solvus_sign', 'c12.df_monotone_x', 'c12.xalpha_monotone_g', 'c12.sentinel_closed',
                      'c12.methods_sign', 'c12.methods_value', 'c12.growth_sign']
 REACH = ['thermo/BinTherm.py:BinaryThermodynamics._interfacialCompositionFromEq', 'thermo/Thermodynamics.py:GeneralThermodynamics._getDrivingForceTangent',
@@ -52,6 +56,7 @@ NG = {'quick': 12, 'thorough': 60}
 NTRAJ = {'quick': 10, 'thorough': 70}
 NMULTI = {'quick': 5, 'thorough': 30}
 NMETH = {'quick': 4, 'thorough': 40}
+NLONG = {'quick': 3, 'thorough': 18}
 
 
 def plan(tier, seed):
@@ -65,6 +70,10 @@ def plan(tier, seed):
                       'weight': 5e4})
     for i in range(NMETH[tier]):
         cases.append({'kind': 'multi_methods', 'rep': i, 'system': ['almgsi', 'nialcr'][i % 2], 'npoints': 12 if tier == 'quick' else 25, 'weight': 2e5})
+    for i in range(NLONG[tier]):
+        system = 'nialcr' if i % 3 == 2 else 'almgsi'
+        cases.append({'kind': 'long_history', 'rep': i, 'system': system, 'method': ['curvature', 'approximate'][(i // 3 + i) % 2],
+                      'npoints': (400 if tier == 'quick' else 2000) // (1 if system == 'almgsi' else 2), 'weight': 4e5})
     for i in range(NTRAJ[tier]):
         r = core.case_rng(seed, PROPERTY, 100 + i)
         system = ['alzr', 'nialcr', 'almgsi', 'nialcr', 'alzr'][i % 5]
@@ -104,6 +113,8 @@ def run_case(case, R):
         return _multi_temperature(case, R)
     if case['kind'] == 'multi_methods':
         return _multi_methods(case, R)
+    if case['kind'] == 'long_history':
+        return _long_history(case, R)
     T = case['T']
     th = _therm('tangent')
     rng = core.case_rng(case['seed'], PROPERTY, case['idx'], 3)
@@ -220,6 +231,48 @@ def _multi_methods(case, R):
     R.observe('multi_method_far_from_solvus_evaluations', nfar)
     R.info.update({'system': system, 'points': case['npoints'], 'far': nfar})
     R.set_nontrivial(nfar >= 10)
+
+
+def _long_history(case, R):
+    """Sign agreement over a long life of ONE Al-Mg-Si object (hundreds of points x five precipitates). The reference is the
+    sampling method (no cached equilibria). Added after the curvature method was seen to return +1e11 J/mol against -4753 J/mol
+    once per ~5000 queries of a long-lived object (repaired in /repo 0eef5fb; needs >= 15 earlier queries)."""
+    import warnings
+    warnings.filterwarnings('ignore')
+    rng = core.case_rng(case['seed'], PROPERTY, case['idx'], 9)
+    m = case['method']
+    system = case.get('system', 'almgsi')
+    th = precip.make_therm(system, None, None, m)
+    ref = precip.make_therm(system, None, None, 'sampling')
+    far = 300 if system == 'almgsi' else 600      # non-stoichiometric ordered precipitate: the methods differ by up to ~200 J/mol
+    nfar = 0
+    nq = 0
+    for k in range(case['npoints']):
+        if system == 'almgsi':
+            x = np.exp(rng.uniform(np.log(1e-4), np.log(0.03), 2))
+            T = float(rng.uniform(350, 800))
+        else:
+            x = np.array([rng.uniform(0.02, 0.2), rng.uniform(0.005, 0.12)])
+            T = float(rng.uniform(800, 1350))
+        for ph in th.phases[1:]:
+            nq += 1
+            try:
+                dg, _ = th.getDrivingForce(np.array(x, copy=True), T, precPhase=ph)
+                dg = float(np.squeeze(dg)) if dg is not None else float('nan')
+                r, _ = ref.getDrivingForce(np.array(x, copy=True), T, precPhase=ph)
+                r = float(np.squeeze(r))
+            except Exception as e:
+                R.exception('c12.methods_sign', e, {'system': system, 'method': m, 'history': 'long'}, T=T, x=x, phase=ph, query=nq)
+                continue
+            if abs(r) > far:
+                nfar += 1
+                ok = np.isfinite(dg) and np.sign(dg) == np.sign(r)
+                R.check('c12.methods_sign', ok, {'system': system, 'method': m, 'history': 'long',
+                                                 'pattern': None if ok else ('not_finite' if not np.isfinite(dg) else 'opposite_others_%s' % ('positive' if r > 0 else 'negative'))},
+                        T=T, x=x, phase=ph, value=dg, sampling=r, query=nq)
+    R.observe('long_history_queries', nq)
+    R.info.update({'system': system, 'method': m, 'queries': nq, 'far': nfar})
+    R.set_nontrivial(nfar >= 100)
 
 
 def _multi_temperature(case, R):
